@@ -58,7 +58,7 @@ FILES = [
     "scico/numpy/util.py",
 ]
 RULE = (
-    "per family (17 classes/configurations): structured cases from scico's constructors (parameter grids delta, beta, radius, "
+    "per family (18 classes/configurations, incl. the generic Loss wrapping a functional, and every loss after c*L, L/c, set_scale sequences): structured cases from scico's constructors (parameter grids delta, beta, radius, "
     "l2_axis, projector, scale, W, A in {None, Identity, Diagonal}; plain 1-3-d / block layouts; real / complex; float64 and "
     "float32) with dyadic v, lam, plus a boundary stream (magnitudes exactly on / one grid step beside each threshold, v=0, "
     "||v||=r, inside / on / outside the set, zero weights, ties of the arg-max). A case is non-trivial when the prox output is "
@@ -144,7 +144,7 @@ def check_case(ctx, model, case, run_oracle=False):
     if fam == "sql2sqabs":
         cub = case.get("_cubic")
         w = np.asarray(case["w"]) if case.get("w") is not None else np.ones(n)
-        bad = pc.cubic_relation_ok(cub["p"], cub["q"], cub["r"], (float(case["lam"]) * 4 * case["params"]["scale"] * w) > 0)
+        bad = pc.cubic_relation_ok(cub["p"], cub["q"], cub["r"], (float(case["lam"]) * 4 * case["_scale"] * w) > 0)
         if bad:
             ctx.count("cubic-relation-violated")
             ctx.disagree("prox.sql2sqabs.root-relation", _public(case), [list(map(float, b[2:])) for b in bad], "r>=0, r^3+pr+q=0, r=0 only if p>=0",
